@@ -345,9 +345,9 @@ class Select(Match[T], Selectable[T]):
         parent: Optional[Match] = None,
     ):
         super()._resolve(variable, parent)
-        variable = variable or self.variable
-        if not self._var_:
-            self._var_ = variable
+        # the handle stands for the matched element: the variable the match was resolved on (the flattened attribute
+        # for a collection), not the whole attribute that Match._resolve registered before resolving
+        self._var_ = variable or self.variable
 
     def _evaluate__(
         self,
